@@ -2527,6 +2527,10 @@ class MulIntegerExpr(MathIntegerExpr):
         super().__init__(children)
         self.divide = divide
 
+        for operand, operator in itertools.islice(zip(self.children, self.divide), 1, None):
+            if operator != MulIntegerExprOp.MUL and operand.is_literal() and int(operand.get_literal_result()) == 0:
+                raise IllegalParseTree("Division by constant zero", operand)
+
     def get_literal_result(self):
         total = int(self.children[0].get_literal_result())
         for operand, operator in itertools.islice(zip(self.children, self.divide), 1, None):
@@ -2534,8 +2538,6 @@ class MulIntegerExpr(MathIntegerExpr):
             if operator == MulIntegerExprOp.MUL:
                 total *= operand
                 continue
-            if operand == 0:
-                raise IllegalParseTree("Division by zero in constant expression", self)
             # C semantics: truncate towards zero
             quotient = abs(total) // abs(operand)
             if (total < 0) != (operand < 0):
